@@ -816,7 +816,9 @@ def _run_sequence(ctx, sc, space, ad, raw_p2e, promise, steps, rng, fates=(0.5, 
                 # had the duplicates not been removed, one of the first len(points_to_evaluate) suggestions would be an
                 # initial configuration again
                 twin = [h["id"] for h in hist[: len(expected)] if space.equal(h["cfg"], cfg)]
-                ctx.check(C_DEDUP, not twin, scenario=sc, step=step, config=cfg, equal_to_initial_suggestion=twin)
+                raw_e = raw_p2e[step]
+                walks_raw_list = all(k in raw_e and space.refs[k].same(cfg[k], raw_e[k]) or (k not in raw_e and space.refs[k].mid_ok(cfg[k])) for k in space.hp)
+                ctx.check(C_DEDUP, not (twin and walks_raw_list), scenario=sc, step=step, config=cfg, equal_to_initial_suggestion=twin, is_entry_of_the_given_list=raw_e)
             equal_earlier = by_key.get(_key(space, cfg), [])  # exact equality of all hyperparameter values
             if promise:
                 for status, clause in rep_clause.items():
@@ -1250,7 +1252,9 @@ def _fam_pbt(ctx, E, rng, lib_seed, rounds, tier):
                                 break
                             ctx.check(C_CRASH, True)
                             if sg is None:
-                                raise RuntimeError("PBT answered None in an infinite space: %r" % (sc,))
+                                ctx.check(C_NONE, False, scenario=sc, step=next_id, note="PBT answered 'nothing left' in an infinite space")
+                                crashed = True
+                                break
                             cfg = sg.config
                             explored = sg.checkpoint_trial_id is not None
                             ctx.suggestions += 1
@@ -1332,7 +1336,7 @@ def monitor_suggestions(tier="quick", seed=0):
         _fam_hyperband(ctx, E, bo_mixed[:1], rng, lib_seed + 7, ("hypertune",), ("stopping",), steps_inf=7, n_p2e=2, search_options=mf_opts)
     dehb_nn = [_Space("dehb-nn-int", {"width": ("ordinal", (1, 10, 100), "nn-log"), "x": ("uniform", 0.0, 1.0)}, E)]
     dehb_spaces = dehb_nn + [s for s in bo_mixed[:1] + rnd_mixed[: (4 if quick else 14)] + inf_singles[:: (3 if quick else 1)] if s.surely_infinite()]
-    _fam_dehb(ctx, E, dehb_spaces, rng, lib_seed + 8, steps=30 if quick else 45, n_p2e=3 if quick else 6)
+    _fam_dehb(ctx, E, dehb_spaces, rng, lib_seed + 8, steps=45 if quick else 90, n_p2e=3 if quick else 6)
     # PBT
     _fam_pbt(ctx, E, rng, lib_seed + 9, rounds=12 if quick else 40, tier=tier)
 
@@ -1345,7 +1349,7 @@ def monitor_suggestions(tier="quick", seed=0):
         ", ".join("%s: %d" % kv for kv in sorted(ctx.fam_count.items())),
         n_p2e,
         9 if quick else 12,
-        30 if quick else 45,
+        45 if quick else 90,
         12 if quick else 40,
         3 if quick else 4,
         ctx.excluded_f6,
